@@ -208,14 +208,15 @@ type c13Scn struct {
 	HS        string `json:"hs,omitempty"`     // handshake variant
 	Digis     int    `json:"digis"`
 	Mal       int    `json:"mal"`
+	MalWhen   int    `json:"mal_when,omitempty"` // malformed input arrives 0: once the registration was seen; 1: after OpenPortTCP returned, digested before the application dials; 2: on the established connection, while the application reads
 	Choices   []int  `json:"choices,omitempty"`
 }
 
 func (s c13Scn) digis() []string { return []string{"LD5SK", "W1AW-1"}[:s.Digis] }
 
 func (s c13Scn) describe() string {
-	return fmt.Sprintf("%s port=%d frames=%v foreign=%d readbuf=%d late=%d onewrite=%v burst=%v seg=%s chunks=%v drop=%d hs=%s digis=%d mal=%d",
-		s.Kind, s.Port, s.Frames, s.Foreign, s.ReadBuf, s.Late, s.OneWrite, s.Burst, c13SegName(s.Seg), s.Chunks, s.DropEvery, s.HS, s.Digis, s.Mal)
+	return fmt.Sprintf("%s port=%d frames=%v foreign=%d readbuf=%d late=%d onewrite=%v burst=%v seg=%s chunks=%v drop=%d hs=%s digis=%d mal=%d/%d",
+		s.Kind, s.Port, s.Frames, s.Foreign, s.ReadBuf, s.Late, s.OneWrite, s.Burst, c13SegName(s.Seg), s.Chunks, s.DropEvery, s.HS, s.Digis, s.Mal, s.MalWhen)
 }
 
 func c13SegName(i int) string {
@@ -329,7 +330,7 @@ func c13Harness(sc c13Scn, o *c13Obs) func() {
 		appReading, allSent := false, false
 		vs.GoNamed("tnc-pusher", false, func() {
 			vs.WaitUntil("link up", func() bool {
-				return sim.connected || sc.Kind == "malformed" && sim.regSeen || sc.HS == "inbound-connect" && sim.regSeen
+				return sim.connected || sc.Kind == "malformed" && (sim.regSeen || sc.MalWhen == 3) || sc.HS == "inbound-connect" && sim.regSeen
 			})
 			if sc.HS == "inbound-connect" || sc.HS == "inbound-nobody" {
 				if sc.HS == "inbound-connect" {
@@ -342,6 +343,15 @@ func c13Harness(sc c13Scn, o *c13Obs) func() {
 				vs.WaitUntil("accepted", func() bool { return o.accepted || o.appDone })
 			}
 			if sc.Kind == "malformed" {
+				switch sc.MalWhen {
+				case 1:
+					vs.WaitUntil("port is open", func() bool { return o.stage == "opened" || o.appDone })
+				case 3:
+					vs.WaitUntil("tnc is open", func() bool { return o.stage == "tnc-open" || o.appDone })
+				case 2:
+					vs.WaitUntil("application reads", func() bool { return sim.connected && o.stage == "read" || o.appDone })
+					vs.WaitQuiescent()
+				}
 				sim.conn.Write(c13Malformed(sc.Mal))
 				if sc.Mal == 2 || sc.Mal == 4 || sc.Mal == 7 {
 					sim.conn.Close()
@@ -397,7 +407,25 @@ func c13Harness(sc c13Scn, o *c13Obs) func() {
 		vs.GoNamed("application", true, func() {
 			defer func() { o.appDone = true }()
 			o.stage = "open"
-			tp, err := agwpe.OpenPortTCP(c13Addr, sc.Port, c13MyCall)
+			var tp *agwpe.TNCPort
+			var err error
+			if sc.Kind == "malformed" && sc.MalWhen == 3 {
+				// OpenPortTCP's two steps taken apart: the TNC misbehaves right after the TCP connect and the
+				// library has digested that before the port is registered
+				var t *agwpe.TNC
+				if t, err = agwpe.OpenTCP(c13Addr); err == nil {
+					o.stage = "tnc-open"
+					vs.WaitQuiescent()
+					var p *agwpe.Port
+					if p, err = t.RegisterPort(sc.Port, c13MyCall); err == nil {
+						tp = &agwpe.TNCPort{TNC: *t, Port: *p}
+					} else {
+						t.Close()
+					}
+				}
+			} else {
+				tp, err = agwpe.OpenPortTCP(c13Addr, sc.Port, c13MyCall)
+			}
 			o.openErr = err
 			if err != nil {
 				return
@@ -426,6 +454,11 @@ func c13Harness(sc c13Scn, o *c13Obs) func() {
 				o.version, o.dialErr = tp.Version()
 				return
 			default:
+				if sc.Kind == "malformed" && sc.MalWhen == 1 {
+					// the TNC misbehaves between RegisterPort and the first dial: let the library digest it
+					o.stage = "opened"
+					vs.WaitQuiescent()
+				}
 				o.stage = "dial"
 				ctx := vcontext.Background()
 				if sc.HS == "connect-silent" {
@@ -705,6 +738,7 @@ func c13Scenarios(thorough bool) []c13Scn {
 	}
 	for m := 0; m <= 8; m++ {
 		out = append(out, c13Scn{Kind: "malformed", Mal: m, DropEvery: 1}, c13Scn{Kind: "malformed", Mal: m, Seg: 1, DropEvery: 1})
+		out = append(out, c13Scn{Kind: "malformed", Mal: m, MalWhen: 1, DropEvery: 1}, c13Scn{Kind: "malformed", Mal: m, MalWhen: 2, DropEvery: 1}, c13Scn{Kind: "malformed", Mal: m, MalWhen: 3, DropEvery: 1})
 	}
 	return out
 }
